@@ -200,6 +200,7 @@ func runScenario(dir string, sc scenario) map[string]interface{} {
 	res["reopen"] = r2
 	if r2 == "ok" {
 		res["restart"] = sa.exec("dump")
+		res["restart_scan"] = sa.exec("scanstat")
 		sa.exec("close")
 		if sa.exec("open d "+sc.Cfg) == "ok" {
 			res["restart2"] = sa.exec("dump")
